@@ -13,8 +13,8 @@ import (
 	"testing"
 
 	"github.com/prometheus/common/promslog"
-	"github.com/prometheus/prometheus/util/compression"
 	"github.com/prometheus/prometheus/tsdb/wlog"
+	"github.com/prometheus/prometheus/util/compression"
 	"pgregory.net/rapid"
 
 	"verifharness/internal/ev"
